@@ -73,6 +73,7 @@ var c03Layouts = []cookieLayout{
 }
 
 const hostP = "preflight.sso.test"
+const hostU = "unsigned.sso.test"
 
 func c03Run(c *fw.Ctx) {
 	c.Retries = 2 // socket-based harness: tolerate a transient glitch while replaying a prefix
@@ -103,7 +104,9 @@ func c03Run(c *fw.Ctx) {
 		inj := injects[x.Choose("inject", len(injects))]
 		e := envs[inj.name]
 		if e == nil {
-			y := "- service: svca\n  default:\n    from: " + hostA + "\n    to: {{backend:a}}\n    options:\n      allowed_groups:\n        - eng\n      skip_auth_regex:\n        - '^/public/'\n" + inj.yaml +
+			y := "- service: svca\n  default:\n    from: " + hostA + "\n    to: {{backend:a}}\n    options:\n      allowed_groups:\n        - eng\n      skip_auth_regex:\n        - '^/public/'\n        - '^/favicon\\.ico$'\n" + inj.yaml +
+				// an upstream whose requests are not signed (skip_request_signing): nothing else about it differs
+				"- service: svcu\n  default:\n    from: " + hostU + "\n    to: {{backend:a}}\n    options:\n      skip_request_signing: true\n      allowed_groups:\n        - eng\n" + inj.yaml +
 				// a second upstream that lets CORS preflight requests through unauthenticated (the documented
 				// options key skip_auth_preflight is never applied; the upstream-level key is what takes effect)
 				"- service: svcp\n  default:\n    from: " + hostP + "\n    to: {{backend:a}}\n    skipauthpreflight: true\n    options:\n      allowed_groups:\n        - eng\n" + inj.yaml
@@ -114,7 +117,7 @@ func c03Run(c *fw.Ctx) {
 			}
 			envs[inj.name] = e
 		}
-		handling := []string{"authenticated", "skip-auth", "preflight"}[x.Choose("handling", 3)]
+		handling := []string{"authenticated", "skip-auth", "preflight", "authenticated-unsigned-upstream", "skip-auth-favicon"}[x.Choose("handling", 5)]
 		layout := c03Layouts[x.Choose("cookie-layout", len(c03Layouts))]
 		conn := conns[x.Choose("connection", len(conns))]
 		var chosen [4]int
@@ -128,16 +131,26 @@ func c03Run(c *fw.Ctx) {
 			cp.Groups = nil
 			sess = &cp
 		}
+		host := hostA
+		if handling == "authenticated-unsigned-upstream" {
+			host = hostU
+			cp := *sess
+			cp.AuthorizedUpstream = hostU
+			sess = &cp
+		}
 		sealed := e.Seal(sess)
 		path := "/private/page"
 		if handling == "skip-auth" {
 			path = "/public/page"
 		}
+		if handling == "skip-auth-favicon" {
+			path = "/favicon.ico"
+		}
 		var lines []string
 		if handling == "preflight" {
 			lines = append(lines, "OPTIONS "+path+" HTTP/1.1", "Host: "+hostP, "Origin: https://app.example", "Access-Control-Request-Method: POST")
 		} else {
-			lines = append(lines, "GET "+path+" HTTP/1.1", "Host: "+hostA)
+			lines = append(lines, "GET "+path+" HTTP/1.1", "Host: "+host)
 		}
 		var desc []string
 		for i, h := range identityHeaders {
@@ -177,6 +190,10 @@ func c03Run(c *fw.Ctx) {
 		viol := func(key, what string) {
 			c.Res.Violate(fw.Violation{Property: "C03", Key: "C03/" + key, What: what, Scenario: "product", Choices: x.Choices(), Detail: caseDesc()})
 		}
+		if handling == "skip-auth-favicon" && len(resp.Hits) == 0 {
+			c.Res.Count("favicon_not_forwarded", 1)
+			return // the proxy may answer /favicon.ico itself; what matters is what an upstream would receive
+		}
 		if len(resp.Hits) != 1 {
 			viol("not-forwarded/"+handling, fmt.Sprintf("expected the request to reach the backend once, got %d hits (status %d)", len(resp.Hits), resp.Status))
 			return
@@ -194,7 +211,7 @@ func c03Run(c *fw.Ctx) {
 				suffix = "/connection-nominated"
 			}
 			switch {
-			case handling == "skip-auth" || handling == "preflight":
+			case handling == "skip-auth" || handling == "preflight" || handling == "skip-auth-favicon":
 				if len(got) > 0 {
 					viol(handling+"/client-header-passthrough/"+h+suffix, fmt.Sprintf("unauthenticated "+handling+" request reached the upstream with %s: %q", h, got))
 				}
@@ -260,7 +277,7 @@ func init() {
 		Level: "exploration",
 		Rule: "full product, as raw HTTP/1.1 bytes to a real net/http server in front of the real proxy chain, recorded at a backend behind the real reverse proxy: " +
 			"for each of the four identity headers a client variant {absent, canonical, lower-case sent twice (thorough: mixed case, empty value)} x 12 Cookie header layouts (session cookie name followed by a space / a tab before '=', session cookie only/first/middle/last, two session cookies, prefix and suffix look-alike names, quoted values, separate Cookie lines, no space, '=' in values) " +
-			"x handling {authenticated, skip-auth path, CORS preflight (OPTIONS) on an upstream that lets preflights through} x session groups {two, none} x Connection header {plain, nominating identity headers} x inject_request_headers {none, unrelated, colliding with an identity header}; " +
+			"x handling {authenticated, skip-auth path, CORS preflight (OPTIONS) on an upstream that lets preflights through, authenticated on an upstream with skip_request_signing, /favicon.ico matched by a skip-auth pattern} x session groups {two, none} x Connection header {plain, nominating identity headers} x inject_request_headers {none, unrelated, colliding with an identity header}; " +
 			"oracle at the backend: authenticated => the three identity headers exactly once with the session's values and no access-token header (option off); skip-auth and preflight => all four absent; the session cookie never arrives; every other cookie arrives with the same name and value; " +
 			"distinct_nontrivial = distinct (handling, layout, inject, connection, client header variants) cases that were forwarded",
 		Assumptions:    []string{"pass_access_token cannot be enabled through the YAML options (parseOptionsConfig does not copy it), so only the 'disabled' half of that clause is exercised", "preflight skipping likewise cannot be configured"},
